@@ -143,6 +143,9 @@ def run_rebin(case, ctx):
         if case['unit'] != 'Hz':
             labels.add('unit_' + case['unit'])
     with must_succeed('Filter.rebin'):
+        # the same filter object is re-binned onto other grids first (convolve does that whenever the SED grid changes)
+        f.rebin(np.array(snu[::-1]) * u.Hz)
+        f.rebin(np.array([v * 1.0009765625 for v in snu]) * u.Hz)
         g = f.rebin(np.array(snu) * u.Hz)
     R = [float(v) for v in g.response]
     if len(R) != len(snu):
